@@ -74,7 +74,7 @@ def cases(rng, tier):
     return out
 
 
-AH_SECRETS = {"jwtc": "jwt-shared-secret-jwt-shared-secret", "basic": "sb-padded-to-a-usable-hmac-key-length"}
+AH_SECRETS = {"jwtc": "jwt-shared-secret-jwt-shared-secret", "basic": "sb-padded-to-a-usable-hmac-key-length", "jwtc2": "second-jwt-client-secret-second-jwt-client"}
 
 
 def gen_assert_history(rng):
@@ -82,11 +82,12 @@ def gen_assert_history(rng):
     reqs, jtis = [], []
     t = 0
     for _ in range(rng.randrange(3, 9)):
-        sub = rng.choice(["jwtc"] * 6 + ["basic", "ghost"])
-        r = {"sub": sub, "iss": sub, "aud": ms.TOKEN_URL, "exp": 300, "jti": f"j{len(jtis)}", "key": sub, "type": "ok", "dt": rng.choice([0, 0, 1, 30, 200, 400])}
+        sub = rng.choice(["jwtc"] * 5 + ["jwtc2"] * 3 + ["basic", "ghost"])
+        r = {"sub": sub, "iss": sub, "aud": ms.TOKEN_URL, "exp": 300, "jti": f"j{len(jtis)}", "key": sub, "type": "ok", "dt": rng.choice([0, 0, 1, 30, 200, 400]),
+             "kid": rng.choice([None, "K", "K", sub])}
         if jtis and rng.random() < 0.35:
             r["jti"] = rng.choice(jtis)
-        flaw = rng.choice([None] * 5 + ["iss", "aud", "aud-list", "exp-past", "exp-leeway", "no-jti", "no-exp", "no-sub", "key", "type", "no-type", "alg-none", "jti-other-sub", "nbf-future", "aud-superstring", "aud-prefix", "aud-superstring"])
+        flaw = rng.choice([None] * 5 + ["iss", "aud", "aud-list", "exp-past", "exp-leeway", "no-jti", "no-exp", "no-sub", "key", "type", "no-type", "alg-none", "jti-other-sub", "nbf-future", "aud-superstring", "aud-prefix", "aud-superstring", "key-of-other-client", "key-of-other-client"])
         if flaw == "iss": r["iss"] = "someone-else"
         elif flaw == "aud": r["aud"] = "https://other/token"
         elif flaw == "aud-list": r["aud"] = ["https://other/token", ms.TOKEN_URL]
@@ -98,6 +99,7 @@ def gen_assert_history(rng):
         elif flaw == "no-exp": r["exp"] = None
         elif flaw == "no-sub": r["sub"] = None
         elif flaw == "key": r["key"] = "other"
+        elif flaw == "key-of-other-client": r["key"] = "jwtc2" if sub == "jwtc" else "jwtc"; r["kid"] = "K"
         elif flaw == "type": r["type"] = "wrong"
         elif flaw == "no-type": r["type"] = None
         elif flaw == "alg-none": r["key"] = None
@@ -123,7 +125,7 @@ def ah_token(r, now):
         p = base64.urlsafe_b64encode(json.dumps(claims).encode()).rstrip(b"=").decode()
         return h + "." + p + ".", claims
     secret = AH_SECRETS.get(r["key"], "another-secret-another-secret-another")
-    tok = jwt.encode({"alg": "HS256"}, claims, secret.encode())
+    tok = jwt.encode(dict({"alg": "HS256"}, **({"kid": r["kid"]} if r.get("kid") else {})), claims, secret.encode())
     return (tok.decode() if isinstance(tok, bytes) else tok), claims
 
 
@@ -131,6 +133,7 @@ def impl_assert_history(c):
     ms.install_clock(); CLOCK.now = 1_000_000
     store, srv = make_server()
     store.clients["basic"] = Client("basic", AH_SECRETS["basic"], ["https://c/cb"], "a b", ms.ALL_GRANT_TYPES, ms.ALL_RESPONSE_TYPES, "client_secret_basic")
+    store.clients["jwtc2"] = Client("jwtc2", AH_SECRETS["jwtc2"], ["https://c/cb"], "a b", ms.ALL_GRANT_TYPES, ms.ALL_RESPONSE_TYPES, "client_assertion_jwt")
     ms.ClientCredentialsGrant.TOKEN_ENDPOINT_AUTH_METHODS = ["client_secret_basic", "client_assertion_jwt"]
     steps = []
     try:
@@ -170,7 +173,7 @@ def assert_history_line(c):
             want = _hmac.new(AH_SECRETS[sub].encode(), (h + "." + p).encode(), hashlib.sha256).digest()
             sig_ok = _hmac.compare_digest(want, base64.urlsafe_b64decode(sg + "=" * (-len(sg) % 4)))
         reqs.append({"type_ok": r["type"] == "ok", "claims": [[k, enc(v)] for k, v in claims.items()], "sig_ok": sig_ok, "now": 4 * now})
-    return {"token_url": ms.TOKEN_URL, "jwt_clients": [{"id": "jwtc", "jwt": True}, {"id": "pkjwt", "jwt": True}, {"id": "basic", "jwt": False}, {"id": "post", "jwt": False},
+    return {"token_url": ms.TOKEN_URL, "jwt_clients": [{"id": "jwtc", "jwt": True}, {"id": "jwtc2", "jwt": True}, {"id": "pkjwt", "jwt": True}, {"id": "basic", "jwt": False}, {"id": "post", "jwt": False},
                                                     {"id": "pub", "jwt": False}, {"id": "both", "jwt": False}], "reqs": reqs}
 
 
@@ -457,7 +460,7 @@ def oracle(c, out):
         for r, st in zip(c["reqs"], out["steps"]):
             if st.startswith("raised:"):
                 bad(f"assertion authentication raised {st}", kind="crash", exc=st.split(":")[1], mut="history"); continue
-            ok_claims = (r["type"] == "ok" and r["sub"] == "jwtc" and r["iss"] == r["sub"] and r["key"] == r["sub"] and r["jti"] is not None and r["exp"] is not None
+            ok_claims = (r["type"] == "ok" and r["sub"] in ("jwtc", "jwtc2") and r["iss"] == r["sub"] and r["key"] == r["sub"] and r["jti"] is not None and r["exp"] is not None
                          and r["exp"] >= -60 and (r["aud"] == ms.TOKEN_URL or (isinstance(r["aud"], list) and ms.TOKEN_URL in r["aud"])) and r.get("nbf") is None)
             key = (r["sub"], r["jti"])
             fresh = key not in accepted
